@@ -681,6 +681,7 @@ pub fn runs() -> Vec<Sym> {
 }
 
 // ------------------------------------------------------------------ RUN paths (stateless DFS, no merging)
+#[derive(Clone)]
 pub struct RunCfg {
     pub kind: BufKind,
     pub sub: Vec<Sym>,
@@ -688,9 +689,10 @@ pub struct RunCfg {
     pub max_len: usize,
     pub max_runs: usize,
     pub report: Vec<&'static str>,
+    pub root_len: usize,
 }
 fn run_dfs(cfg: &RunCfg, node: &Node, path: &mut Vec<Sym>, bytes: &Gen2, used: usize, acc: &mut (Tally, Counts, Counts, u64, u64)) {
-    if path.len() >= cfg.max_len {
+    if path.len() >= cfg.max_len + cfg.root_len {
         return;
     }
     let mut step = |s: Sym, used: usize, path: &mut Vec<Sym>, acc: &mut (Tally, Counts, Counts, u64, u64)| {
@@ -727,7 +729,8 @@ fn run_dfs(cfg: &RunCfg, node: &Node, path: &mut Vec<Sym>, bytes: &Gen2, used: u
     }
 }
 /// Every path of length <= max_len over `sub` + `runs` with at most `max_runs` RUN symbols.
-pub fn explore_runs(cfg: &RunCfg) -> (Tally, Counts, Counts, u64, u64) {
+pub fn explore_runs(cfg: &RunCfg, root: &[Sym]) -> (Tally, Counts, Counts, u64, u64) {
+    let cfg = &RunCfg { root_len: root.len(), ..cfg.clone() };
     // parallel over the first two symbols
     let mut firsts: Vec<Vec<Sym>> = vec![];
     let all: Vec<Sym> = cfg.sub.iter().chain(cfg.runs.iter()).copied().collect();
@@ -744,9 +747,9 @@ pub fn explore_runs(cfg: &RunCfg) -> (Tally, Counts, Counts, u64, u64) {
         let mut acc = (Tally::new(), Counts::default(), Counts::default(), 0u64, 0u64);
         for i in a..b {
             let p = &firsts[i as usize];
-            let mut node = Node::new(cfg.kind);
+            let (mut node, _) = rebuild(cfg.kind, root);
             let mut ok = true;
-            let mut path = vec![];
+            let mut path = root.to_vec();
             let bytes = Gen2::default();
             for &s in p {
                 let mut info = StepInfo::default();
@@ -800,6 +803,14 @@ pub fn replay(case: &J) -> Vec<Viol> {
             crate::e1c::c14_compare(kind, &path, &cont, adapt_lhs).into_iter().collect()
         }
         Some("c08b") => crate::e1c::replay_c08b(case),
+        Some("bytes") => {
+            let b = case.get("bytes").and_then(|b| b.as_str()).and_then(crate::json::unhex).unwrap_or_default();
+            let r = crate::mon::mon_run(kind, &b, &[]);
+            r.findings
+                .into_iter()
+                .map(|(class, what)| Viol { class: class.to_string(), key: format!("golden:{}", crate::json::hex(&b)), what, case: case.clone(), size: b.len() })
+                .collect()
+        }
         _ => {
             let mut n = Node::new(kind);
             let mut g = Gen2::default();
